@@ -1,7 +1,7 @@
 //! Replays a concrete input on the REAL raindb code (scratch copy built with --cfg raindb_verif)
 //! and evaluates an executable oracle.  Input: a line-oriented text file (written by
 //! tools/replay.py from the JSON replay file).  Output: `REPLAY violated ...` or `REPLAY holds`.
-use raindb::verif_api as api;
+use raindb::db::verif_api as api;
 use std::io::BufRead;
 
 fn unhex(s: &str) -> Vec<u8> {
@@ -38,6 +38,7 @@ fn main() {
     let mut entries: Vec<(Vec<u8>, u64, u8, Vec<u8>)> = vec![];
     let mut lookups: Vec<(Vec<u8>, u64)> = vec![];
     let mut block_size = 4096usize;
+    let mut dbops: Vec<api::DbOp> = vec![];
     for l in &lines {
         let t: Vec<&str> = l.split_whitespace().collect();
         if t.is_empty() {
@@ -52,6 +53,14 @@ fn main() {
                 "flip" => ops.push(api::LogOp::Flip(t[2].parse().unwrap(), t[3].parse().unwrap())),
                 "truncate" => ops.push(api::LogOp::Truncate(t[2].parse().unwrap())),
                 _ => panic!("bad op"),
+            },
+            "db" => match t[1] {
+                "put" => dbops.push(api::DbOp::Put(unhex(t[2]), unhex(t[3]))),
+                "delete" => dbops.push(api::DbOp::Delete(unhex(t[2]))),
+                "flush" => dbops.push(api::DbOp::Flush),
+                "compact" => dbops.push(api::DbOp::CompactAll),
+                "reopen" => dbops.push(api::DbOp::Reopen(t[2] == "reuse")),
+                _ => panic!("bad db op"),
             },
             "entry" => entries.push((unhex(t[1]), t[2].parse().unwrap(), t[3].parse().unwrap(), unhex(t[4]))),
             "lookup" => lookups.push((unhex(t[1]), t[2].parse().unwrap())),
@@ -97,6 +106,31 @@ fn main() {
             } else {
                 println!("REPLAY violated oracle=key_range {}", bad.join("; "));
             }
+        }
+        // a single-client history on the real DB vs a map model (C01)
+        "db_history" => {
+            let mut model: std::collections::BTreeMap<Vec<u8>, Option<Vec<u8>>> = Default::default();
+            for op in &dbops {
+                match op {
+                    api::DbOp::Put(k, v) => { model.insert(k.clone(), Some(v.clone())); }
+                    api::DbOp::Delete(k) => { model.insert(k.clone(), None); }
+                    _ => {}
+                }
+            }
+            let keys: Vec<Vec<u8>> = model.keys().cloned().collect();
+            let actual = api::run_history(&dbops, &keys);
+            let mut bad = vec![];
+            for (k, a) in keys.iter().zip(actual.iter()) {
+                let e = match model.get(k).unwrap() {
+                    Some(v) => format!("value:{}", v.iter().map(|b| format!("{:02x}", b)).collect::<String>()),
+                    None => "notfound".to_string(),
+                };
+                if *a != e {
+                    bad.push(format!("get({}) returned {} expected {}", hex(k), a, e));
+                }
+            }
+            if bad.is_empty() { println!("REPLAY holds oracle=db_history keys={}", keys.len()); }
+            else { println!("REPLAY violated oracle=db_history {}", bad.join("; ")); }
         }
         // real TableBuilder + Table::get vs "newest entry of the user key at or below the bound"
         "table_get" => {
